@@ -22,6 +22,7 @@ enum Tok {
     Sep,
     Class(Vec<char>, bool), // chars, negated
     Alts(Vec<&'static str>), // one of several literal strings
+    Seqs(Vec<Vec<Tok>>),     // one of several token sequences (alternatives that contain wildcards)
     Opt(char),
     Plus(char),
     Many(char),
@@ -53,6 +54,9 @@ fn token_alphabet() -> Vec<(&'static str, Tok, &'static str)> {
         ("{a,(}", Tok::Class(vec!['a', '('], false), "alt_paren_inside"),
         ("@(a|,)", Tok::Class(vec!['a', ','], false), "ext_comma_inside"),
         ("{b,a|b}", Tok::Alts(vec!["b", "a|b"]), "alt_bar_inside"),
+        // alternatives that contain a separator and a wildcard; the group closes the pattern text
+        ("{b,a/**}", Tok::Seqs(vec![vec![Tok::Lit('b')], vec![Tok::Lit('a'), Tok::Sep, Tok::DStar]]), "alt_wild_inside"),
+        ("@(b|a/*)", Tok::Seqs(vec![vec![Tok::Lit('b')], vec![Tok::Lit('a'), Tok::Sep, Tok::Star]]), "ext_wild_inside"),
         ("\\*", Tok::Lit('*'), "esc"),
         ("\\?", Tok::Lit('?'), "esc"),
     ]
@@ -137,6 +141,11 @@ fn rmatch(t: &[Tok], p: &[char], ic: bool, neg_sep: bool) -> bool {
             p.len() >= ac.len()
                 && ac.iter().zip(p.iter()).all(|(x, y)| fold(*x, ic) == fold(*y, ic))
                 && rmatch(&t[1..], &p[ac.len()..], ic, neg_sep)
+        }),
+        Tok::Seqs(alts) => alts.iter().any(|alt| {
+            let mut seq: Vec<Tok> = alt.clone();
+            seq.extend_from_slice(&t[1..]);
+            rmatch(&seq, p, ic, neg_sep)
         }),
         Tok::Opt(c) => {
             rmatch(&t[1..], p, ic, neg_sep)
